@@ -341,6 +341,10 @@ def _gen_perturb(S, cfg, m, h):
             else:
                 cur.insert(j, list(cur[j]))
             ev = {'act': 'setloc', 'obj': h, 'loc': loc, 'mods': cur, 'why': 'perturb-' + kind}
+            if not cur and loc[0] == 'internal':
+                # the last modification of a residue was dropped: the client clears the list it holds (an EMPTY group
+                # stays behind at that position) or pops the position
+                ev['empty_list'] = S.coin(0.5)
             if not cur and loc[0] == 'interval':
                 # the last modification of an interval was dropped: the client either clears the list it holds
                 # (leaving an empty list in place) or removes it
@@ -882,6 +886,9 @@ def _exec_event(run, ev_i, ev):
         elif loc[0] == 'internal':
             if val:
                 _lib(x.add_internal_mod, loc[1], val, False)
+            elif ev.get('empty_list') and x.get_internal_mods_by_index(loc[1]):
+                del x.get_internal_mods_by_index(loc[1])[:]
+                out.probes['residue_left_with_empty_mod_group'] += 1
             else:
                 _lib(x.pop_internal_mod, loc[1])
         elif loc[0] == 'interval':
